@@ -182,7 +182,7 @@ def parseBatchHeader (header : Bytes) : Res BatchHeader :=
     | some oid =>
       match Go.parseUint w2 10 64 with
       | none => .err "size"
-      | some sz => .ok ⟨oid, w1, clamp c32 sz⟩
+      | some sz => .ok ⟨oid, w1, sz⟩      -- `counts.NewCount64(size)` (after the repair of F8)
   | _ => .err "malformed"
 
 /-- the code before the repair of F5, kept for the negation witness: `header[:len(header)-1]`
